@@ -430,7 +430,8 @@ def step (s : FS) (op : Op) (c : Choice) : FS × Reply :=
       if ino.kind ≠ NF3REG then (s, .fail .err)
       else if off ≥ ino.size then (s, .data 0 true [])
       else
-        let n := if off + count ≥ ino.size then ino.size - off else count
+        -- a READ larger than rtmax (= the journal-derived transfer bound) is a short read
+        let n := if off + min count s.wtmax ≥ ino.size then ino.size - off else min count s.wtmax
         (s, .data n false (readBytes ino.content off n))
   | .write fh off count stable data =>
     match resolve s fh with
